@@ -1,6 +1,6 @@
 (* The statements behind props/C04.v and props/C06.v, derived from the step-level facts of
    OwnInv_proofs.v. *)
-From Verif Require Import Gen_DoKill Gen_Claimable Common Ownership Ownership_proofs Teardown Teardown_proofs OwnSpec OwnInv_proofs.
+From Verif Require Import Gen_DoKill Gen_Claimable Gen_CleanupAtomic Common Ownership Ownership_proofs Teardown Teardown_proofs OwnSpec OwnInv_proofs.
 Open Scope N_scope.
 
 Lemma option_eq_dec_N (a b : option N) : {a = b} + {a <> b}.
@@ -260,7 +260,7 @@ Proof.
   intros [I S D] W Sr E.
   pose proof (step_spec s o s' u I W E) as [I' _].
   constructor; [exact I'| |].
-  - destruct o as [e missing|e c|e c|e ev fail|e force allow keep tfail| |ids|t|fids|rids|];
+  - destruct o as [e missing|e c|e c|e ev fail|e force allow keep tfail| |ids|t|fids|rids|rt| |sids|];
       cbn [step serial_op] in *; try discriminate.
     + destruct (N.eqb (c_fail c) 1).
       { unfold snap in E. injection E as <- <-. exact S. }
@@ -278,7 +278,10 @@ Proof.
     + injection E as <- <-. exact S.
     + injection E as <- <-. exact S.
     + injection E as <- <-. exact S.
-  - destruct o as [e missing|e c|e c|e ev fail|e force allow keep tfail| |ids|t|fids|rids|];
+    + injection E as <- <-. exact S.
+    + rewrite stale_cleanup_is_kill in E. destruct (kill_tasks sids (s_roster s)). injection E as <- <-. exact S.
+    + injection E as <- <-. exact S.
+  - destruct o as [e missing|e c|e c|e ev fail|e force allow keep tfail| |ids|t|fids|rids|rt| |sids|];
       cbn [step serial_op wf_op] in *; try discriminate.
     + apply andb_true_iff in W. destruct W as [_ Wd]. apply nodupb_N in Wd.
       destruct (N.eqb (c_fail c) 1).
@@ -298,6 +301,9 @@ Proof.
     + injection E as <- <-. exact D.
     + injection E as <- <-. exact D.
     + injection E as <- <-. exact D.
+    + injection E as <- <-. exact D.
+    + injection E as <- <-. exact D.
+    + rewrite stale_cleanup_is_kill in E. destruct (kill_tasks sids (s_roster s)). injection E as <- <-. exact D.
     + injection E as <- <-. exact D.
 Qed.
 
@@ -1217,6 +1223,19 @@ Proof.
   - destruct (negb (is_locked t)); [destruct (kill_refused t)|]; cbn [fst snd In]; auto.
   - destruct (IH Hin) as [H|H]; destruct (negb (is_locked a)); [destruct (kill_refused a)| | destruct (kill_refused a)|];
       cbn [fst snd In]; auto.
+Qed.
+
+(* a Cleanup acts on tasks that are unlocked at the moment of the kill: a list computed earlier cannot be
+   stale (source fact cleanup_is_atomic), so acting on it keeps every locked task and KILLs unlocked ones only *)
+Lemma cleanup_never_stale :
+  cleanup_no_block = true /\
+  forall ids r,
+    (forall t, In t r -> is_locked t = true -> In t (fst (stale_cleanup ids r))) /\
+    (forall k, In k (snd (stale_cleanup ids r)) -> exists t, In t r /\ t_id t = k /\ is_locked t = false).
+Proof.
+  split; [apply cleanup_is_atomic|]. intros ids r. rewrite stale_cleanup_is_kill. split.
+  - intros t Hin Hl. apply kill_keeps_locked; assumption.
+  - intros k Hk. apply kill_kills in Hk. destruct Hk as [t [H1 [H2 [H3 _]]]]. exists t. auto.
 Qed.
 
 (* a status update from the master changes nothing: no lock, no owner, no listing entry *)
